@@ -561,8 +561,8 @@ MUTANTS = [
            "        if not np.isfinite(array).all() or (\n            np.abs(array) * factor >= np.iinfo(np.int32).max\n        ).any():\n            # The fixed point representation is a 32 bit integer:\n            # non-finite or too large values can only be kept as float\n            return bcif.BinaryCIFData(array, [ByteArrayEncoding()])\n",
            "", "R6.fixed-point-guarded"),
     Mutant("compress-guard-after-encode", COMPRESS,
-           "        to_integer_encoding = FixedPointEncoding(factor)\n        integer_array = to_integer_encoding.encode(array)\n",
-           "        to_integer_encoding = FixedPointEncoding(factor)\n", "R6.fixed-point-guarded"),
+           "        if not np.isfinite(array).all() or (\n            np.abs(array) * factor >= np.iinfo(np.int32).max\n        ).any():\n            # The fixed point representation is a 32 bit integer:\n            # non-finite or too large values can only be kept as float\n            return bcif.BinaryCIFData(array, [ByteArrayEncoding()])\n        to_integer_encoding = FixedPointEncoding(factor)\n        integer_array = to_integer_encoding.encode(array)\n",
+           "        to_integer_encoding = FixedPointEncoding(factor)\n        integer_array = to_integer_encoding.encode(array)\n        if not np.isfinite(array).all() or (\n            np.abs(array) * factor >= np.iinfo(np.int32).max\n        ).any():\n            # The fixed point representation is a 32 bit integer:\n            # non-finite or too large values can only be kept as float\n            return bcif.BinaryCIFData(array, [ByteArrayEncoding()])\n", "R6.fixed-point-guarded"),
     Mutant("compress-other-factor", COMPRESS, "        to_integer_encoding = FixedPointEncoding(factor)", "        to_integer_encoding = FixedPointEncoding(10 * factor)",
            "R6.same-factor"),
     Mutant("decimals-absolute-error", COMPRESS, "        if np.all(error < tol * np.abs(array)):", "        if np.all(error < tol):", "R6.tolerance"),
